@@ -118,9 +118,16 @@ def _rule_R7(text, args):
 
 def _rule_R9(text, args):
     # for (k, v) in m.into_iter() {  ->  take-any-until-empty loop over a trusted stub (consuming HashMap iteration)
+    # with arguments: the same for `for (k, v) in ARG {` where ARG (e.g. self.0) is a HashMap consumed by value
     rx = re.compile(r"for\s+\(\s*(?P<k>" + IDENT + r")\s*,\s*(?P<v>" + IDENT + r")\s*\)\s+in\s+(?P<m>" + IDENT + r")\.into_iter\(\)\s*\{")
-    return rx.subn(lambda m: "let mut %s = %s; while let Some((%s, %s)) = vstub_take_any(&mut %s) /*@loophead*/ {" % (
+    text, n = rx.subn(lambda m: "let mut %s = %s; while let Some((%s, %s)) = vstub_take_any(&mut %s) /*@loophead*/ {" % (
         m.group("m"), m.group("m"), m.group("k"), m.group("v"), m.group("m")), text)
+    for a in args:
+        rx2 = re.compile(r"for\s+\(\s*(?P<k>" + IDENT + r")\s*,\s*(?P<v>" + IDENT + r")\s*\)\s+in\s+" + re.escape(a) + r"\s*\{")
+        text, k = rx2.subn(lambda m: "let mut vmap__ = %s; while let Some((%s, %s)) = vstub_take_any(&mut vmap__) /*@loophead*/ {" % (
+            a, m.group("k"), m.group("v")), text)
+        n += k
+    return text, n
 
 
 def _rule_R12(text, args):
@@ -393,19 +400,21 @@ def _rule_R29(text, args):
 
 def _rule_R30(text, args):
     # NAME(a, b)  for a local NAME that holds a FUNCTION POINTER  ->  vstub_call_NAME(NAME, a, b)
+    # (X.N)(a, X.M)  for a function pointer held in tuple field N of an OPAQUE struct value X (self or a local)
+    #                ->  vstub_call_self_N(<ref to X>, a)   - a trailing `X.M` argument (the variable's index, another field
+    #                    of the same opaque value) travels with X
     # (Verus has no function-pointer types: the pointer is an opaque value and the call a trusted stub whose effect is an
-    #  oracle; args: the local names)
+    #  oracle; args: the local names / X.N forms)
     n = 0
     for name in args:
-        m = re.fullmatch(r"self\.(\d+)", name)
+        m = re.fullmatch(r"(" + IDENT + r")\.(\d+)", name)
         if m:
-            # (self.N)(a, self.M)  ->  vstub_call_self_N(self, a)   : a function pointer held in a tuple field of an OPAQUE
-            # struct; a trailing `self.M` argument (the variable's index, another field of the same opaque value) travels
-            # with `self`
-            rx = re.compile(r"\(\s*self\s*\.\s*" + m.group(1) + r"\s*\)\s*\(")
-            text, k = rx.subn("vstub_call_self_%s(self, " % m.group(1), text)
+            x, fld = m.group(1), m.group(2)
+            ref = "self" if x == "self" else "&" + x
+            rx = re.compile(r"\(\s*" + re.escape(x) + r"\s*\.\s*" + fld + r"\s*\)\s*\(")
+            text, k = rx.subn("vstub_call_self_%s(%s, " % (fld, ref), text)
             if k:
-                text = re.sub(r"(vstub_call_self_" + m.group(1) + r"\(self, [^;]*?),\s*self\s*\.\s*\d+\s*\)", r"\1)", text)
+                text = re.sub(r"(vstub_call_self_" + fld + r"\(" + re.escape(ref) + r", [^;]*?),\s*" + re.escape(x) + r"\s*\.\s*\d+\s*\)", r"\1)", text)
             n += k
             continue
         rx = re.compile(r"(?<![A-Za-z0-9_.:])" + re.escape(name) + r"\(")
